@@ -43,6 +43,9 @@ Definition dead_err (e : err) : bool :=
 
 Definition has_handler (handlers : nat -> option handler) (m : nat) : bool := is_some (handlers m).
 
+(* further notions of the statements are defined where their lemmas are: [ext_feeds], [ctopo] (handler
+   invocations in topological order), [handlers_after], [execution_ok] (one executor over time) *)
+
 (* ---------------------------------------------------------------------- *)
 (* enums                                                                   *)
 
@@ -375,32 +378,34 @@ Qed.
 
 Lemma coerce_input_typed v p t : coerce_input v p = inr t -> typed t p.
 Proof.
-  unfold coerce_input, typed. destruct v as [x|t'].
+  unfold coerce_input, typed. destruct v as [x|t'|cd ci x].
   - intros H. inversion H. cbn. auto.
   - destruct (dt_eqb (tv_dt t') (fst p)) eqn:Ht; cbn [negb]; [|discriminate].
     destruct (il_ltb (tv_il t') (snd p)) eqn:Hi; [discriminate|].
     intros H. inversion H; subst. apply dt_eqb_eq in Ht. apply il_ltb_ge in Hi. auto.
+  - intros H. inversion H. cbn. auto.
 Qed.
 
 Lemma coerce_input_err v p e : coerce_input v p = inl e -> e = EInType \/ e = EInInteg.
 Proof.
-  unfold coerce_input. destruct v as [x|t']; [discriminate|].
+  unfold coerce_input. destruct v as [x|t'|cd ci x]; [discriminate| |discriminate].
   destruct (negb _); [intros H; inversion H; auto|].
   destruct (il_ltb _ _); intros H; inversion H; auto.
 Qed.
 
 Lemma coerce_output_exact v p t : coerce_output v p = inr t -> exact t p.
 Proof.
-  unfold coerce_output, exact. destruct v as [x|t'].
+  unfold coerce_output, exact. destruct v as [x|t'|cd ci x].
   - intros H. inversion H. cbn. auto.
   - destruct (dt_eqb (tv_dt t') (fst p)) eqn:Ht; cbn [negb]; [|discriminate].
     destruct (il_eqb (tv_il t') (snd p)) eqn:Hi; cbn [negb]; [|discriminate].
     intros H. inversion H; subst. apply dt_eqb_eq in Ht. apply il_eqb_eq in Hi. auto.
+  - intros H. inversion H. cbn. auto.
 Qed.
 
 Lemma coerce_output_err v p e : coerce_output v p = inl e -> e = EOutType \/ e = EOutInteg.
 Proof.
-  unfold coerce_output. destruct v as [x|t']; [discriminate|].
+  unfold coerce_output. destruct v as [x|t'|cd ci x]; [discriminate| |discriminate].
   destruct (negb _); [intros H; inversion H; auto|].
   destruct (negb _); intros H; inversion H; auto.
 Qed.
@@ -1057,6 +1062,207 @@ Proof.
 Qed.
 
 (* ---------------------------------------------------------------------- *)
+(* handler invocations are in topological order in EVERY execution (also one that raises) *)
+
+(* the input port (m, p) is given a value from outside in this execution *)
+Definition ext_feeds (ext : extin) (m p : nat) : Prop :=
+  exists ps v, In (m, ps) ext /\ In (p, v) ps.
+
+Lemma le1_unique {A} (l : list A) a b : length l <= 1 -> In a l -> In b l -> a = b.
+Proof.
+  destruct l as [|x [|y l]]; cbn; intros H Ha Hb; try lia; try contradiction.
+  destruct Ha as [<-|[]], Hb as [<-|[]]. reflexivity.
+Qed.
+
+(* without fan-in, the wire into an input port is unique *)
+Lemma single_source wires w w' :
+  multi_src wires = false -> In w wires -> In w' wires ->
+  w_dm w = w_dm w' -> w_dp w = w_dp w' -> w = w'.
+Proof.
+  intros Hms Hw Hw' Hm Hp. unfold multi_src in Hms.
+  assert (Hn : Nat.ltb 1 (n_incoming wires (w_dm w) (w_dp w)) = false).
+  { destruct (Nat.ltb 1 (n_incoming wires (w_dm w) (w_dp w))) eqn:E; auto.
+    assert (existsb (fun w0 => Nat.ltb 1 (n_incoming wires (w_dm w0) (w_dp w0))) wires = true)
+      by (apply existsb_exists; eauto).
+    congruence. }
+  apply Nat.ltb_ge in Hn. unfold n_incoming in Hn.
+  apply (le1_unique _ w w' Hn); apply filter_In; split; auto; unfold dst_is.
+  - now rewrite !Nat.eqb_refl.
+  - rewrite Hm, Hp. now rewrite !Nat.eqb_refl.
+Qed.
+
+Section Topo.
+Variable mods : list module.
+Variable wires : list wire.
+Variable handlers : nat -> option handler.
+Variable enforce : bool.
+Variable fed : nat -> nat -> Prop.              (* the input ports fed from outside *)
+Hypothesis Hacc : Forall (flows_ok mods) wires.
+Hypothesis Hms : multi_src wires = false.
+
+(* the module at the source of wire [w] has been invoked, or [w]'s destination is also fed from outside *)
+Definition src_called (calls : list call) (w : wire) : Prop :=
+  In (w_sm w) (map fst calls) \/ fed (w_dm w) (w_dp w).
+
+(* at every invocation, the sources of all wires into the invoked module had been invoked *)
+Definition ctopo (calls : list call) : Prop :=
+  forall pre c post, calls = pre ++ c :: post ->
+    forall w, In w wires -> w_dm w = fst c -> src_called pre w.
+
+Definition K (st : state) : Prop :=
+  ctopo (s_calls st) /\
+  forall w, In w wires -> get (s_mi st) (w_dm w) (w_dp w) <> None -> src_called (s_calls st) w.
+
+Lemma ctopo_nil : ctopo [].
+Proof. intros pre c post H. destruct pre; discriminate H. Qed.
+
+Lemma ctopo_snoc calls c :
+  ctopo calls -> (forall w, In w wires -> w_dm w = fst c -> src_called calls w) -> ctopo (calls ++ [c]).
+Proof.
+  intros Hc Hnew pre c' post E.
+  destruct (exists_last (l := c' :: post)) as (l' & x & El); [discriminate|].
+  rewrite El in E. rewrite app_assoc in E. apply app_inj_tail in E. destruct E as [E1 E2]. subst x.
+  destruct post as [|y post].
+  - destruct l' as [|z l']; [|destruct l'; discriminate El]. cbn in El. inversion El; subst c'.
+    rewrite app_nil_r in E1. subst pre. exact Hnew.
+  - destruct l' as [|z l']; [destruct post; discriminate El|].
+    cbn in El. inversion El; subst z. apply (Hc pre c' l'). exact E1.
+Qed.
+
+Lemma src_called_mono calls c w : src_called calls w -> src_called (calls ++ [c]) w.
+Proof.
+  intros [H|H]; [left|right; auto]. rewrite map_app. apply in_app_iff. auto.
+Qed.
+
+Lemma deliver_K outs st w :
+  In w wires -> In (w_sm w) (map fst (s_calls st)) -> K st ->
+  match deliver mods enforce outs st w with
+  | Ok st' => K st' /\ s_calls st' = s_calls st
+  | Err e c => c = s_calls st
+  end.
+Proof.
+  intros Hw Hsm [Hc Hk]. unfold deliver.
+  destruct (nth_error outs (w_sp w)); [|reflexivity].
+  destruct (in_port mods (w_dm w) (w_dp w)); [|reflexivity].
+  destruct (enforce && negb (dt_eqb (tv_dt t) (fst p))); [reflexivity|].
+  destruct (enforce && il_ltb (tv_il t) (snd p)); [reflexivity|].
+  destruct (get (s_mi st) (w_dm w) (w_dp w)) eqn:Hg; [reflexivity|].
+  split; [|reflexivity]. split; [exact Hc|]. cbn [set_mi s_mi s_calls].
+  intros w' Hw' Hg'.
+  destruct (get (put (s_mi st) (w_dm w) (w_dp w) t) (w_dm w') (w_dp w')) as [t'|] eqn:E; [|congruence].
+  apply get_put_spec in E. destruct E as [(E1 & E2 & _)|E].
+  - assert (w' = w) by (apply (single_source wires); auto). subst w'. left. exact Hsm.
+  - apply Hk; auto. congruence.
+Qed.
+
+Lemma deliver_all_K outs m : forall ws st,
+  (forall w, In w ws -> In w wires /\ w_sm w = m) -> In m (map fst (s_calls st)) -> K st ->
+  match deliver_all mods enforce outs ws st with
+  | Ok st' => K st' /\ s_calls st' = s_calls st
+  | Err e c => c = s_calls st
+  end.
+Proof.
+  induction ws as [|w rest IH]; intros st Hws Hm Hk; cbn [deliver_all]; [auto|].
+  destruct (Hws w (or_introl eq_refl)) as [Hw Hsm].
+  pose proof (deliver_K outs st w Hw) as H. rewrite Hsm in H. specialize (H Hm Hk).
+  destruct (deliver mods enforce outs st w) as [st1|e c]; [|exact H].
+  destruct H as [Hk1 Hc1].
+  specialize (IH st1 (fun w' H' => Hws w' (or_intror H'))). rewrite Hc1 in IH. specialize (IH Hm Hk1).
+  destruct (deliver_all mods enforce outs rest st1) as [st2|e c].
+  - destruct IH as [Hk2 Hc2]. split; auto.
+  - exact IH.
+Qed.
+
+(* a module without a handler has no outputs to deliver: any outgoing wire raises *)
+Lemma deliver_all_no_outputs : forall ws st,
+  match deliver_all mods enforce [] ws st with
+  | Ok st' => st' = st
+  | Err e c => c = s_calls st
+  end.
+Proof.
+  intros [|w rest] st; cbn [deliver_all]; [reflexivity|].
+  unfold deliver. destruct (w_sp w); reflexivity.
+Qed.
+
+Lemma run_module_K m md st :
+  K st -> nth_error mods m = Some md -> is_ready (s_mi st) m md = true ->
+  match run_module mods wires handlers enforce m md st with
+  | Ok st' => K st'
+  | Err e c => ctopo c
+  end.
+Proof.
+  intros [Hc Hk] Hmd Hr.
+  pose proof (proj1 (is_ready_spec _ _ _) Hr) as Hr'.
+  assert (Hsrc : forall w, In w wires -> w_dm w = m -> src_called (s_calls st) w).
+  { intros w Hw Hm. apply Hk; auto.
+    destruct (wire_ports mods wires Hacc w Hw) as (_ & mdd & _ & d & _ & _ & Hmdd & Hdp & _).
+    rewrite Hm in *. rewrite Hmd in Hmdd. inversion Hmdd; subst mdd.
+    apply Hr'. apply nth_error_Some. congruence. }
+  unfold run_module. cbv zeta. set (r := nth m (s_mi st) []).
+  destruct (handlers m) as [h|].
+  - assert (Hc' : ctopo (s_calls st ++ [(m, r)])) by (apply ctopo_snoc; auto).
+    destruct (call_outputs h md r) as [e|outs]; [exact Hc'|].
+    set (st1 := mkSt (s_mi st) (s_order st ++ [m]) (s_runs st ++ [(m, r, outs)]) (s_calls st ++ [(m, r)])).
+    assert (K1 : K st1).
+    { split; [exact Hc'|]. cbn [st1 s_mi s_calls]. intros w Hw Hg. apply src_called_mono. auto. }
+    pose proof (deliver_all_K outs m (outgoing wires m) st1 (outgoing_In wires m)) as H.
+    assert (Hin : In m (map fst (s_calls st1))).
+    { cbn [st1 s_calls]. unfold call in *. rewrite map_app. apply in_app_iff. right. cbn. auto. }
+    specialize (H Hin K1).
+    destruct (deliver_all mods enforce outs (outgoing wires m) st1) as [st2|e c].
+    + apply H.
+    + rewrite H. exact Hc'.
+  - set (st1 := mkSt (s_mi st) (s_order st ++ [m]) (s_runs st ++ [(m, r, [])]) (s_calls st)).
+    pose proof (deliver_all_no_outputs (outgoing wires m) st1) as H.
+    destruct (deliver_all mods enforce [] (outgoing wires m) st1) as [st2|e c].
+    + subst st2. split; [exact Hc|exact Hk].
+    + rewrite H. exact Hc.
+Qed.
+
+Lemma pass_K ms :
+  (forall m md, In (m, md) ms -> nth_error mods m = Some md) -> forall st b, K st ->
+  match pass mods wires handlers enforce ms st b with
+  | Ok (st', _) => K st'
+  | Err e c => ctopo c
+  end.
+Proof.
+  induction ms as [|[m md] rest IH]; intros Hms' st b Hk; cbn [pass]; [exact Hk|].
+  assert (Hrest : forall m' md', In (m', md') rest -> nth_error mods m' = Some md')
+    by (intros; apply Hms'; now right).
+  destruct (existsb (Nat.eqb m) (s_order st)); [apply IH; auto|].
+  destruct (is_ready (s_mi st) m md) eqn:Hr; [|apply IH; auto].
+  pose proof (run_module_K m md st Hk (Hms' m md (or_introl eq_refl)) Hr) as H.
+  destruct (run_module mods wires handlers enforce m md st) as [st1|e c]; [|exact H].
+  apply IH; auto.
+Qed.
+
+Lemma loop_K : forall fuel st, K st -> ctopo (snd (loop mods wires handlers enforce fuel st)).
+Proof.
+  induction fuel as [|f IH]; intros st Hk; cbn [loop];
+    destruct (Nat.ltb (length (s_order st)) (length mods)); cbn [snd]; try apply Hk.
+  pose proof (pass_K (indexed mods) (fun m md H => proj1 (in_indexed mods m md) H) st false Hk) as H.
+  destruct (pass mods wires handlers enforce (indexed mods) st false) as [[st1 b1]|e c]; [|exact H].
+  destruct b1; [apply IH; exact H|apply H].
+Qed.
+
+End Topo.
+
+Lemma execute_topological mods wires handlers enforce ext :
+  Forall (flows_ok mods) wires ->
+  ctopo wires (ext_feeds ext) (snd (execute mods wires handlers enforce ext)).
+Proof.
+  intros Hacc. unfold execute.
+  pose proof (ext_mods_spec mods handlers ext (init_inputs mods) (init_shape mods) (init_typed mods)) as He.
+  destruct (ext_mods mods (init_inputs mods) ext) as [e|mi]; [apply ctopo_nil|].
+  destruct (preflight mods wires handlers mi) as [e|] eqn:Hp; [apply ctopo_nil|].
+  apply preflight_none in Hp. destruct Hp as [Hms _]. destruct He as (_ & _ & Hext).
+  apply loop_K; auto. split; [apply ctopo_nil|]. cbn [s_mi s_calls].
+  intros w Hw Hg. right. destruct (Hext _ _ Hg) as [H|(ps & v & H1 & H2)].
+  - rewrite get_init in H. congruence.
+  - exists ps, v. auto.
+Qed.
+
+(* ---------------------------------------------------------------------- *)
 (* the statements of Property.v                                            *)
 
 Section Final.
@@ -1199,3 +1405,296 @@ Proof.
 Qed.
 
 End Final.
+
+(* ---------------------------------------------------------------------- *)
+(* an input port with a wire that is also given a value from outside has two sources: no report *)
+
+Lemma get_put_same (mi : minputs) m p v (r : row) :
+  nth_error mi m = Some r -> p < length r -> get (put mi m p v) m p = Some v.
+Proof.
+  intros Hm0 Hp. unfold put. destruct (nth_error mi m) as [r'|] eqn:Hm; [|discriminate].
+  inversion Hm0; subst r'. unfold get. rewrite nth_error_set_nth, Nat.eqb_refl, Hm.
+  rewrite nth_error_set_nth, Nat.eqb_refl.
+  destruct (nth_error r p) eqn:E; [reflexivity|]. apply nth_error_None in E. lia.
+Qed.
+
+Lemma ext_ports_stored mods m md : nth_error mods m = Some md -> forall ps mi mi',
+  shape mods mi -> ext_ports m md mi ps = inr mi' ->
+  shape mods mi' /\ (forall a b, get mi a b <> None -> get mi' a b <> None) /\
+  (forall p v, In (p, v) ps -> get mi' m p <> None).
+Proof.
+  intros Hmd. induction ps as [|[p v] rest IH]; intros mi mi' Hs; cbn [ext_ports].
+  - intros H. inversion H; subst. split; [auto|split; [auto|intros p v []]].
+  - destruct (nth_error (m_in md) p) as [pt|] eqn:Hp; [|discriminate].
+    destruct (coerce_input v pt) as [e|t]; [discriminate|]. intros H.
+    destruct (IH _ _ (put_shape mods mi m p t Hs) H) as (H1 & H2 & H3).
+    split; [exact H1|]. split.
+    + intros a b Hg. apply H2. apply get_put_mono. exact Hg.
+    + intros p' v' [E|Hin]; [|eauto]. inversion E; subst p' v'. apply H2.
+      destruct Hs as [Hl Hr].
+      assert (Hm : m < length mi) by (rewrite Hl; apply nth_error_Some; congruence).
+      destruct (nth_error mi m) as [r|] eqn:Er; [|apply nth_error_None in Er; lia].
+      rewrite (get_put_same mi m p t r Er); [discriminate|].
+      rewrite (Hr m r md Er Hmd). apply nth_error_Some. congruence.
+Qed.
+
+Lemma ext_mods_stored mods : forall ext mi mi',
+  shape mods mi -> ext_mods mods mi ext = inr mi' ->
+  (forall a b, get mi a b <> None -> get mi' a b <> None) /\
+  (forall m ps p v, In (m, ps) ext -> In (p, v) ps -> get mi' m p <> None).
+Proof.
+  induction ext as [|[m ps] rest IH]; intros mi mi' Hs; cbn [ext_mods].
+  - intros H. inversion H; subst. split; [auto|intros m ps p v []].
+  - destruct (nth_error mods m) as [md|] eqn:Hmd; [|discriminate].
+    destruct (ext_ports m md mi ps) as [e|mi1] eqn:E1; [discriminate|]. intros H.
+    destruct (ext_ports_stored mods m md Hmd ps mi mi1 Hs E1) as (S1 & M1 & P1).
+    destruct (IH _ _ S1 H) as (M2 & P2). split.
+    + intros a b Hg. apply M2, M1, Hg.
+    + intros m' ps' p v [E|Hin] Hp; [|eauto]. inversion E; subst m' ps'. apply M2. eauto.
+Qed.
+
+Section TwoSources.
+Variable mods : list module.
+Variable wires : list wire.
+Variable handlers : nat -> option handler.
+Variable enforce : bool.
+Variable mi0 : minputs.                (* module_inputs after the external inputs were stored *)
+
+(* slots never become empty again; every wire out of a module that ran found its destination
+   slot empty, so that slot was empty from the start *)
+Definition J (st : state) : Prop :=
+  (forall a b, get mi0 a b <> None -> get (s_mi st) a b <> None) /\
+  (forall w, In w wires -> In (w_sm w) (s_order st) -> get mi0 (w_dm w) (w_dp w) = None).
+
+Definition J1 (st : state) : Prop := forall a b, get mi0 a b <> None -> get (s_mi st) a b <> None.
+
+Lemma deliver_all_J outs : forall ws st, J1 st ->
+  match deliver_all mods enforce outs ws st with
+  | Ok st' => J1 st' /\ s_order st' = s_order st /\
+              (forall w, In w ws -> get mi0 (w_dm w) (w_dp w) = None)
+  | Err _ _ => True
+  end.
+Proof.
+  induction ws as [|w rest IH]; intros st Hj; cbn [deliver_all].
+  - split; [exact Hj|split; [reflexivity|intros w []]].
+  - unfold deliver at 1.
+    destruct (nth_error outs (w_sp w)) as [v|]; [|exact I].
+    destruct (in_port mods (w_dm w) (w_dp w)) as [d|]; [|exact I].
+    destruct (enforce && negb (dt_eqb (tv_dt v) (fst d))); [exact I|].
+    destruct (enforce && il_ltb (tv_il v) (snd d)); [exact I|].
+    destruct (get (s_mi st) (w_dm w) (w_dp w)) eqn:Hg; [exact I|].
+    assert (Hj' : J1 (set_mi st (put (s_mi st) (w_dm w) (w_dp w) v))).
+    { intros a b H. cbn [set_mi s_mi]. apply get_put_mono. apply Hj, H. }
+    specialize (IH _ Hj').
+    destruct (deliver_all mods enforce outs rest _) as [st2|e c]; [|exact I].
+    destruct IH as (H1 & H2 & H3). split; [exact H1|]. split; [exact H2|].
+    intros w' [<-|Hin]; [|auto].
+    destruct (get mi0 (w_dm w) (w_dp w)) eqn:E; [|reflexivity].
+    exfalso. apply (Hj (w_dm w) (w_dp w)); congruence.
+Qed.
+
+Lemma run_module_J m md st : J st ->
+  match run_module mods wires handlers enforce m md st with
+  | Ok st' => J st'
+  | Err _ _ => True
+  end.
+Proof.
+  intros [Hj1 Hj2]. unfold run_module. cbv zeta.
+  assert (Hfin : forall outs calls,
+    match deliver_all mods enforce outs (outgoing wires m)
+            (mkSt (s_mi st) (s_order st ++ [m]) (s_runs st ++ [(m, nth m (s_mi st) [], outs)]) calls) with
+    | Ok st' => J st'
+    | Err _ _ => True
+    end).
+  { intros outs calls.
+    pose proof (deliver_all_J outs (outgoing wires m)
+                  (mkSt (s_mi st) (s_order st ++ [m]) (s_runs st ++ [(m, nth m (s_mi st) [], outs)]) calls) Hj1) as H.
+    destruct (deliver_all mods enforce outs (outgoing wires m) _) as [st2|e c]; [|exact I].
+    destruct H as (H1 & H2 & H3). split; [exact H1|].
+    intros w Hw Hin. rewrite H2 in Hin. cbn [s_order] in Hin. apply in_app_iff in Hin.
+    destruct Hin as [Hin|[Hin|[]]]; [auto|]. apply H3. rewrite Hin. apply outgoing_In'. exact Hw. }
+  destruct (handlers m) as [h|]; [|apply Hfin].
+  destruct (call_outputs h md (nth m (s_mi st) [])); [exact I|apply Hfin].
+Qed.
+
+Lemma pass_J : forall ms st b, J st ->
+  match pass mods wires handlers enforce ms st b with
+  | Ok (st', _) => J st'
+  | Err _ _ => True
+  end.
+Proof.
+  induction ms as [|[m md] rest IH]; intros st b Hj; cbn [pass]; [exact Hj|].
+  destruct (existsb (Nat.eqb m) (s_order st)); [apply IH; auto|].
+  destruct (is_ready (s_mi st) m md); [|apply IH; auto].
+  pose proof (run_module_J m md st Hj) as H.
+  destruct (run_module mods wires handlers enforce m md st) as [st1|e c]; [|exact I].
+  apply IH. exact H.
+Qed.
+
+Lemma loop_J : forall fuel st, J st ->
+  match fst (loop mods wires handlers enforce fuel st) with
+  | Report order _ => forall w, In w wires -> In (w_sm w) order -> get mi0 (w_dm w) (w_dp w) = None
+  | _ => True
+  end.
+Proof.
+  induction fuel as [|f IH]; intros st Hj; cbn [loop];
+    destruct (Nat.ltb (length (s_order st)) (length mods)); cbn [fst]; try exact I; try apply Hj.
+  pose proof (pass_J (indexed mods) st false Hj) as H.
+  destruct (pass mods wires handlers enforce (indexed mods) st false) as [[st1 b1]|e c]; [|exact I].
+  destruct b1; [apply IH; exact H|exact I].
+Qed.
+
+End TwoSources.
+
+Lemma two_sources_no_report mods attempts handlers enforce ext w :
+  In w (build mods attempts) -> ext_feeds ext (w_dm w) (w_dp w) ->
+  exists e, fst (execute mods (build mods attempts) handlers enforce ext) = Raised e /\
+            (wiring_error e = true \/
+             (e = EHandlerRaised /\
+              handler_raised handlers (snd (execute mods (build mods attempts) handlers enforce ext)))).
+Proof.
+  intros Hw (ps & v & He1 & He2).
+  pose proof (unschedulable_raises_proof mods attempts handlers enforce ext) as U. cbv zeta in U.
+  destruct U as (U1 & _ & _ & U4 & _).
+  destruct (execute mods (build mods attempts) handlers enforce ext) as [out calls] eqn:E. cbn [fst snd] in *.
+  destruct out as [order runs|e|]; [|eauto|contradiction].
+  exfalso.
+  destruct (each_module_once_proof mods attempts handlers enforce ext _ _ _ E) as (Hperm & _).
+  unfold execute in E.
+  destruct (ext_mods mods (init_inputs mods) ext) as [e|mi] eqn:Em; [discriminate|].
+  destruct (ext_mods_stored mods ext _ _ (init_shape mods) Em) as (_ & Hst).
+  destruct (preflight mods (build mods attempts) handlers mi); [discriminate|].
+  pose proof (loop_J mods (build mods attempts) handlers enforce mi (S (length mods)) (mkSt mi [] [] [])) as L.
+  rewrite E in L. cbn [fst] in L.
+  assert (J0 : J (build mods attempts) mi (mkSt mi [] [] [])).
+  { split; [intros a b H; exact H|intros w' _ []]. }
+  specialize (L J0 w Hw).
+  apply (Hst _ _ _ _ He1 He2). apply L.
+  apply (Permutation_in _ (Permutation_sym Hperm)). apply in_seq.
+  pose proof (build_accepted mods attempts) as Hacc. rewrite Forall_forall in Hacc.
+  destruct (wire_mods_lt mods w (Hacc w Hw)). lia.
+Qed.
+
+(* ---------------------------------------------------------------------- *)
+(* one executor over time                                                  *)
+
+(* the current executor's _handlers after the operations [ops] (a register_module for an unknown
+   module raises and changes nothing; execute changes nothing; a new executor has none) *)
+Fixpoint handlers_after (mods : list module) (hs : nat -> option handler) (ops : list xop)
+  : nat -> option handler :=
+  match ops with
+  | [] => hs
+  | XReg m h :: rest =>
+      handlers_after mods (match register mods hs m h with Some hs' => hs' | None => hs end) rest
+  | XExec _ _ :: rest => handlers_after mods hs rest
+  | XNew :: rest => handlers_after mods (fun _ => None) rest
+  end.
+
+(* everything the property says about ONE execution of the diagram [wires] with the handler table
+   [handlers], the external inputs [ext] and the flag [enforce] that ended with [res] *)
+Definition execution_ok (mods : list module) (wires : list wire) (handlers : nat -> option handler)
+           (ext : extin) (res : outcome * list call) : Prop :=
+  (* it terminated *)
+  fst res <> OutOfFuel /\
+  (* every handler invocation saw a complete, typed input row; none was invoked twice; each
+     was invoked after the handlers of all modules wired into it *)
+  (forall c, In c (snd res) -> exists md, nth_error mods (fst c) = Some md /\ row_ok (snd c) (m_in md)) /\
+  NoDup (map fst (snd res)) /\
+  ctopo wires (ext_feeds ext) (snd res) /\
+  (* mislabelled handler outputs are rejected *)
+  (forall m r md h kv j p t,
+     In (m, r) (snd res) -> nth_error mods m = Some md -> handlers m = Some h -> h r = HRet kv ->
+     nth_error (m_out md) j = Some p -> lookup j kv = Some (Lab t) -> ~ exact t p ->
+     exists e, fst res = Raised e /\ output_rejection e /\ wiring_error e = true) /\
+  (* unschedulable diagrams raise *)
+  (duplicate_source wires \/ missing_source mods wires ext \/ missing_handler mods handlers ->
+     exists e, res = (Raised e, []) /\ wiring_error e = true) /\
+  (cyclic wires -> exists e, fst res = Raised e) /\
+  (forall w, In w wires -> ext_feeds ext (w_dm w) (w_dp w) -> exists e, fst res = Raised e) /\
+  (forall e, fst res = Raised e ->
+     wiring_error e = true \/ (e = EHandlerRaised /\ handler_raised handlers (snd res))) /\
+  (* a report: every module once, in topological order, typed rows, exactly labelled outputs *)
+  (forall order runs, fst res = Report order runs ->
+     Permutation order (seq 0 (length mods)) /\
+     (forall w, In w wires -> before (w_sm w) (w_dm w) order) /\
+     map (fun x : run => fst (fst x)) runs = order /\
+     map fst (snd res) = filter (has_handler handlers) order /\
+     (forall m r outs, In (m, r, outs) runs ->
+        exists md, nth_error mods m = Some md /\ row_ok r (m_in md) /\
+                   (handlers m <> None -> Forall2 exact outs (m_out md)))).
+
+Lemma execution_ok_proof mods attempts handlers enforce ext :
+  execution_ok mods (build mods attempts) handlers ext
+               (execute mods (build mods attempts) handlers enforce ext).
+Proof.
+  pose proof (unschedulable_raises_proof mods attempts handlers enforce ext) as U. cbv zeta in U.
+  destruct (execute mods (build mods attempts) handlers enforce ext) as [out calls] eqn:E.
+  cbn [fst snd] in *. destruct U as (U1 & U2 & U3 & U4 & U5 & U6).
+  unfold execution_ok. cbn [fst snd].
+  split; [exact U1|]. split; [exact U5|]. split; [exact U6|]. split.
+  { pose proof (execute_topological mods (build mods attempts) handlers enforce ext
+                                    (build_accepted mods attempts)) as T.
+    rewrite E in T. exact T. }
+  split.
+  { intros m r md h kv j p t. apply (mislabelled_output_rejected_proof mods attempts handlers enforce ext out calls). exact E. }
+  split; [exact U2|]. split.
+  { intros Hc. destruct (U3 Hc) as (e & He & _). eauto. }
+  split.
+  { intros w Hw Hf. destruct (two_sources_no_report mods attempts handlers enforce ext w Hw Hf) as (e & He & _).
+    rewrite E in He. eauto. }
+  split; [exact U4|].
+  intros order runs ->.
+  destruct (each_module_once_proof mods attempts handlers enforce ext _ _ _ E) as (P1 & P2 & P3 & P4).
+  split; [exact P1|]. split; [exact P2|]. split; [exact P3|]. split; [exact P4|].
+  destruct (delivered_values_typed_proof mods attempts handlers enforce ext _ _ E) as [_ D].
+  intros m r outs Hin. eapply D; eauto.
+Qed.
+
+(* an execution event of a history is the execution of a fresh executor that holds the handlers
+   registered so far: nothing else of the history matters *)
+Lemma history_exec mods wires : forall ops hs0 hs ext enforce res,
+  In (EvExec hs ext enforce res) (run_ops mods wires hs0 ops) ->
+  (exists pre post, ops = pre ++ XExec ext enforce :: post /\ hs = handlers_after mods hs0 pre) /\
+  res = execute mods wires hs enforce ext.
+Proof.
+  induction ops as [|[m h|ext' enforce'|] rest IH]; intros hs0 hs ext enforce res Hin; cbn [run_ops] in Hin.
+  - destruct Hin.
+  - destruct (register mods hs0 m h) as [hs'|] eqn:Hr; destruct Hin as [Hin|Hin]; try discriminate Hin;
+      destruct (IH _ _ _ _ _ Hin) as ((pre & post & -> & ->) & Hres); (split; [|exact Hres]);
+      exists (XReg m h :: pre), post; cbn [handlers_after app]; rewrite Hr; auto.
+  - destruct Hin as [Hin|Hin].
+    + inversion Hin; subst. split; [|reflexivity]. exists [], rest. auto.
+    + destruct (IH _ _ _ _ _ Hin) as ((pre & post & -> & ->) & Hres). split; [|exact Hres].
+      exists (XExec ext' enforce' :: pre), post. auto.
+  - destruct Hin as [Hin|Hin]; [discriminate Hin|].
+    destruct (IH _ _ _ _ _ Hin) as ((pre & post & -> & ->) & Hres). split; [|exact Hres].
+    exists (XNew :: pre), post. auto.
+Qed.
+
+Lemma every_execution_of_an_executor_proof mods attempts hs0 ops hs ext enforce res :
+  In (EvExec hs ext enforce res) (run_ops mods (build mods attempts) hs0 ops) ->
+  (exists pre post, ops = pre ++ XExec ext enforce :: post /\ hs = handlers_after mods hs0 pre) /\
+  res = execute mods (build mods attempts) hs enforce ext /\
+  execution_ok mods (build mods attempts) hs ext res.
+Proof.
+  intros Hin. destruct (history_exec _ _ _ _ _ _ _ _ Hin) as [H1 H2].
+  split; [exact H1|]. split; [exact H2|]. rewrite H2. apply execution_ok_proof.
+Qed.
+
+(* every operation of a history yields exactly one event: executions are neither skipped nor repeated *)
+Lemma history_length mods wires : forall ops hs0, length (run_ops mods wires hs0 ops) = length ops.
+Proof.
+  induction ops as [|[m h|e f|] rest IH]; intros hs0; cbn [run_ops length]; auto.
+  destruct (register mods hs0 m h); cbn [length]; auto.
+Qed.
+
+Lemma calls_topological_proof mods attempts handlers enforce ext out calls :
+  execute mods (build mods attempts) handlers enforce ext = (out, calls) ->
+  forall pre c post, calls = pre ++ c :: post ->
+  forall w, In w (build mods attempts) -> w_dm w = fst c ->
+    In (w_sm w) (map fst pre) \/ ext_feeds ext (w_dm w) (w_dp w).
+Proof.
+  intros E. pose proof (execute_topological mods (build mods attempts) handlers enforce ext
+                                            (build_accepted mods attempts)) as T.
+  rewrite E in T. exact T.
+Qed.
